@@ -155,6 +155,17 @@ def make_functions(fresh):
     return out
 
 
+RR = [False]
+
+
+def _boundary():
+    from vlib import sched as SC
+
+    s = SC.SCHED
+    if RR[0] and s is not None and s.active and s.me() == s.cur:
+        s.yield_other()
+
+
 def run_schedule(programs, fresh, preempt, by_label=None):
     """Returns (sched, per-thread results, post-problems, finished, errors)."""
     from ptera.probe import Probe, OverridableProbe
@@ -183,11 +194,14 @@ def run_schedule(programs, fresh, preempt, by_label=None):
                 else:
                     p.__enter__()
                     rest = calls
+                _boundary()
                 try:
                     for roots in rest:
                         outs.append(F.drive(copy.deepcopy(roots)))
+                        _boundary()
                 finally:
                     p.__exit__(None, None, None)
+                _boundary()
                 if spec["mode"] == "total":
                     evs = [{k: list(c.values) for k, c in ev.items()} for ev in sink]
                 else:
@@ -233,6 +247,12 @@ def label_schedule(s):
 
 
 def check_case(programs, fresh, raw_preempts, max_pre, rec=None, by_label=None):
+    # 2nd parameter: "rr" = the threads also hand the baton on at every operation boundary (after
+    # an activation, after each call, before a deactivation), so that one thread's activations
+    # fall between another thread's calls even without a generated preemption; anything else
+    # (True in older replay files) = threads run to completion unless preempted
+    RR[0] = fresh == "rr"
+    mode = "rr" if RR[0] else "seq"
     fresh = True  # every case works on its own function objects: no state shared between cases
     # programs: list (per thread) of rounds [(spec index, [roots, ...])], ids made unique per thread
     programs = [[(si, [renumber(r, 100 * (ti + 1) + 30 * ri + 10 * ci) for ci, r in enumerate(calls)])
@@ -241,7 +261,7 @@ def check_case(programs, fresh, raw_preempts, max_pre, rec=None, by_label=None):
             for ti, rounds in enumerate(programs)]
     # baseline (no preemption): measures the switch points and must itself be correct
     s0, res0, prob0, fin0, err0 = run_schedule(programs, fresh, {})
-    desc = f"programs {[[(si, [__import__('vlib.treegen', fromlist=['x']).plan_brief(r) for r in calls]) for si, calls in rounds] for rounds in programs]} fresh={fresh}"
+    desc = f"programs {[[(si, [__import__('vlib.treegen', fromlist=['x']).plan_brief(r) for r in calls]) for si, calls in rounds] for rounds in programs]} baton={mode}"
     if not fin0 or any(err0) or res0 != want or prob0:
         raise PropertyViolation(
             "sequential", f"even the unpreempted run is wrong: finished={fin0} errors={err0} problems={prob0} "
@@ -251,11 +271,17 @@ def check_case(programs, fresh, raw_preempts, max_pre, rec=None, by_label=None):
     crit = [i for i, lab in enumerate(labels) if lab[0] in CRITICAL] or list(range(K))
     # (the functions under test and what runs at the entry of every instrumented call)
     calls = [i for i, lab in enumerate(labels) if lab[0] in ("fa", "fb", "fc", "_call", "fits_selector", "proceed")] or crit
+    from vlib import sched as SC_
+
+    helper_names = SC_.EXTRA_CRITICAL - _CRITICAL - _NONCRIT
+    helpers = [i for i, lab in enumerate(labels) if lab[0] in helper_names]
     preempt = {}
     n = len(programs)
     for j, (r, tgt, anywhere) in enumerate(raw_preempts[:max_pre]):
         # 1/4 anywhere, 1/4 inside the (instrumented) functions under test, 1/2 in critical sections
         pool = list(range(K)) if anywhere else (calls if (r // 7) % 3 == 0 else crit)
+        if not anywhere and helpers and (r // 21) % 3 == 0:
+            pool = helpers  # inside helpers the critical functions call (found on the tree under test)
         preempt[pool[r % len(pool)]] = tgt % n
     bl = None
     if by_label is not None:
@@ -288,10 +314,10 @@ def check_case(programs, fresh, raw_preempts, max_pre, rec=None, by_label=None):
             first = in_crit[0][0]
             later = [lab for lab in s.labels[first + 1:] if lab[0] in CRITICAL]
             nt = bool(later)
-        feats = {f"threads:{n}", f"realised:{len(realised)}", "fresh" if fresh else "long-lived"}
+        feats = {f"threads:{n}", f"realised:{len(realised)}", "baton:" + mode}
         if in_crit:
             feats.add("preempt-in-critical")
-        rec.case(h64(repr((programs, fresh, [(k, a, b) for k, _, a, b in realised]))), nt, feats,
+        rec.case(h64(repr((programs, mode, [(k, a, b) for k, _, a, b in realised]))), nt, feats,
                  sample=lambda: {"threads": n, "preemptions": [[k, list(lab), a, b] for k, lab, a, b in realised],
                                  "switch_points": K})
         rec.evaluations += 1
@@ -305,7 +331,7 @@ def replay(payload):
     attempts.append({})
     for kw in attempts:
         try:
-            check_case(progs, True, [tuple(p) for p in payload["preempts"]], payload["max_pre"], **kw)
+            check_case(progs, payload.get("fresh", True), [tuple(p) for p in payload["preempts"]], payload["max_pre"], **kw)
         except PropertyViolation as v:
             return [{"clause": v.clause, "detail": v.detail}]
     return []
@@ -328,7 +354,7 @@ def strategy(max_pre):
                 calls = [draw(plans) for _ in range(draw(st.integers(1, 2)))]
                 rounds.append((si, calls))
             programs.append(rounds)
-        fresh = draw(st.booleans())
+        fresh = draw(st.sampled_from(["rr", "seq"]))
         npre = draw(st.integers(1, max_pre))
         pre = [(draw(st.integers(0, 10 ** 6)), draw(st.integers(0, 2)), draw(st.integers(0, 3)) == 0)
                for _ in range(npre)]
@@ -339,7 +365,7 @@ def strategy(max_pre):
 
 def plan(tier, seed, scale):
     if tier == "quick":
-        return [{"examples": int(400 * scale), "max_pre": 3} for _ in range(16)]
+        return [{"examples": int(600 * scale), "max_pre": 3} for _ in range(16)]
     return [{"examples": int(1200 * scale), "max_pre": 3 if i % 2 else 5} for i in range(32)]
 
 
@@ -357,10 +383,10 @@ def shard(cfg):
         # re-run the shrunk case once more to record its realised schedule by label
         sched = None
         try:
-            check_case(programs, True, pre, max_pre)
+            check_case(programs, fresh, pre, max_pre)
         except PropertyViolation:
             sched = getattr(check_case, "last_schedule", None)
-        res["violations"] = [violation_record(PROPERTY, v, {"programs": programs, "fresh": True,
+        res["violations"] = [violation_record(PROPERTY, v, {"programs": programs, "fresh": fresh,
                                                             "preempts": [list(p) for p in pre], "max_pre": max_pre,
                                                             "schedule": sched})]
     if herr:
